@@ -44,6 +44,10 @@ var fileSan = regexp.MustCompile(`[^A-Za-z0-9_.#@-]+`)
 
 func runSolver(ctx context.Context, s solverSpec, file string, timeoutS int) solveResult {
 	t0 := time.Now()
+	if os.Getenv("VERIF_FORCE_TIMEOUT") != "" {
+		// self-test of the proof-log fallback: behave as a machine on which no back end ever answers
+		return solveResult{result: "timeout", solver: s.name}
+	}
 	args := s.cmd(file, timeoutS)
 	cctx, cancel := context.WithTimeout(ctx, time.Duration(timeoutS+2)*time.Second)
 	defer cancel()
@@ -73,20 +77,72 @@ func runSolver(ctx context.Context, s solverSpec, file string, timeoutS int) sol
 var knownFindingObls = map[string]bool{}
 
 func solveOne(file string, timeoutS int, seed int) solveResult {
-	return solveOneR(file, timeoutS, seed, true)
+	return solveOneR(file, timeoutS, seed, true, nil)
 }
 
-func solveOneR(file string, timeoutS int, seed int, secondRound bool) solveResult {
+// seedSolver builds the solver spec of a seeded z3-new variant ("z3-new-seed7", "z3-new-seed7-em")
+func seedSolver(sd int, em bool) solverSpec {
+	name := fmt.Sprintf("z3-new-seed%d", sd)
+	if em {
+		name += "-em"
+	}
+	return solverSpec{name, func(f string, t int) []string {
+		args := []string{"z3-new", fmt.Sprintf("smt.random_seed=%d", sd), fmt.Sprintf("sat.random_seed=%d", sd)}
+		if em {
+			args = append(args, "smt.mbqi=false", "smt.auto_config=false")
+		}
+		return append(args, fmt.Sprintf("-T:%d", t), f)
+	}}
+}
+
+func solverByName(name string) (solverSpec, bool) {
+	for _, s := range solvers {
+		if s.name == name {
+			return s, true
+		}
+	}
+	for _, sd := range []int{7, 13} {
+		for _, em := range []bool{false, true} {
+			if sp := seedSolver(sd, em); sp.name == name {
+				return sp, true
+			}
+		}
+	}
+	return solverSpec{}, false
+}
+
+// solveOneR: hint (may be nil) names the back end that discharged this obligation when the proof log was
+// recorded and how long it took; that back end runs first and alone for a while (strategy only: every answer still
+// comes from a solver run on this query).
+func solveOneR(file string, timeoutS int, seed int, secondRound bool, hint *proofEntry) solveResult {
 	ctx, cancel := context.WithCancel(context.Background())
 	defer cancel()
-	ch := make(chan solveResult, len(solvers))
+	order := solvers
+	head := 700 * time.Millisecond
 	t0 := time.Now()
-	for i, s := range solvers {
+	if hint != nil {
+		if hs, ok := solverByName(hint.solver); ok {
+			order = []solverSpec{hs}
+			for _, s := range solvers {
+				if s.name != hs.name {
+					order = append(order, s)
+				}
+			}
+			if d := time.Duration(hint.secs*3*float64(time.Second)) + time.Second; d > head {
+				head = d
+			}
+			if head > time.Duration(timeoutS)*time.Second/2 {
+				head = time.Duration(timeoutS) * time.Second / 2
+			}
+		}
+	}
+	ch := make(chan solveResult, len(order))
+	for i, s := range order {
 		go func(i int, s solverSpec) {
 			// stagger: give the first solver a head start
 			if i > 0 {
 				select {
-				case <-time.After(time.Duration(i) * 700 * time.Millisecond):
+				case <-time.After(head + time.Duration(i-1)*700*time.Millisecond):
 				case <-ctx.Done():
 					ch <- solveResult{result: "cancelled", solver: s.name}
 					return
@@ -97,7 +153,7 @@ func solveOneR(file string, timeoutS int, seed int, secondRound bool) solveResul
 	}
 	var last solveResult
 	var errs []string
-	for range solvers {
+	for range order {
 		r := <-ch
 		if r.result == "unsat" || r.result == "sat" {
 			r.secs = time.Since(t0).Seconds()
@@ -114,8 +170,7 @@ func solveOneR(file string, timeoutS int, seed int, secondRound bool) solveResul
 	}
 	// second round: the same query with other random seeds (guards against unlucky heuristics)
 	if secondRound && os.Getenv("VERIF_NOSECOND") == "" && (last.result == "timeout" || last.result == "unknown") {
-		type sr struct{ r solveResult }
-		ch2 := make(chan solveResult, 4)
+			ch2 := make(chan solveResult, 4)
 		ctx2, cancel2 := context.WithCancel(context.Background())
 		defer cancel2()
 		n := 0
@@ -123,13 +178,7 @@ func solveOneR(file string, timeoutS int, seed int, secondRound bool) solveResul
 			for _, em := range []bool{false, true} {
 				n++
 				go func(sd int, em bool) {
-					args := []string{"z3-new", fmt.Sprintf("smt.random_seed=%d", sd), fmt.Sprintf("sat.random_seed=%d", sd)}
-					if em {
-						args = append(args, "smt.mbqi=false", "smt.auto_config=false")
-					}
-					args = append(args, fmt.Sprintf("-T:%d", timeoutS), file)
-					sp := solverSpec{fmt.Sprintf("z3-new-seed%d", sd), func(string, int) []string { return args }}
-					ch2 <- runSolver(ctx2, sp, file, timeoutS)
+					ch2 <- runSolver(ctx2, seedSolver(sd, em), file, timeoutS)
 				}(sd, em)
 			}
 		}
@@ -142,7 +191,7 @@ func solveOneR(file string, timeoutS int, seed int, secondRound bool) solveResul
 		}
 	}
 	last.secs = time.Since(t0).Seconds()
-	if len(errs) == len(solvers) {
+	if len(errs) == len(order) {
 		last.result = "error"
 	}
 	if len(errs) > 0 {
@@ -217,6 +266,8 @@ func solveAll(vcs []*VC, dir string, timeoutS int, seed int, keep bool) {
 					file = filepath.Join(dir, fmt.Sprintf("%s.%d.smt2", name, k))
 				}
 				txt := j.vc.render(j.o, "ALL")
+				j.o.Digest = vcDigest(txt)
+				hint := proofLog.lookup(j.o.Name)
 				txt += "(get-model)\n"
 				if err := os.WriteFile(file, []byte(txt), 0o644); err != nil {
 					j.o.Result = "error"
@@ -230,7 +281,7 @@ func solveAll(vcs []*VC, dir string, timeoutS int, seed int, keep bool) {
 				if knownFindingObls[j.o.Name] && to > 10 {
 					to = 10
 				}
-				r := solveOneR(file, to, seed, !quick)
+				r := solveOneR(file, to, seed, !quick, hint)
 				if r.result != "unsat" && !quick && !j.o.Cover && j.o.Kind != "auto-frame" && strings.Contains(txt[:80], "(sliced)") && os.Getenv("VERIF_NOFALLBACK") == "" {
 					// the cone of influence may have dropped a needed fact: decide over the whole prefix
 					j.o.unsliced = true
@@ -238,12 +289,26 @@ func solveAll(vcs []*VC, dir string, timeoutS int, seed int, keep bool) {
 					if os.Getenv("VERIF_DEBUG") != "" {
 						fmt.Fprintf(os.Stderr, "slice fallback: %s (%s)\n", j.o.Name, r.result)
 					}
-					txt = j.vc.render(j.o, "ALL") + "(get-model)\n"
+					txt = j.vc.render(j.o, "ALL")
+					d2 := vcDigest(txt)
+					txt += "(get-model)\n"
 					if err := os.WriteFile(file, []byte(txt), 0o644); err == nil {
-						r2 := solveOne(file, to, seed)
+						r2 := solveOneR(file, to, seed, true, hint)
 						r2.secs += r.secs
 						r = r2
+						if r.result == "unsat" {
+							j.o.Digest = d2
+						} else if hint != nil && hint.digest == d2 {
+							j.o.Digest = d2
+						}
 					}
+				}
+				// last resort on a slow machine: no back end answered in time, but this very query (byte-identical
+				// text, sha256) was discharged when the proof log was recorded; a refutation (sat) is never overridden
+				if !quick && !j.o.Cover && (r.result == "timeout" || r.result == "unknown") && hint != nil && hint.digest == j.o.Digest && os.Getenv("VERIF_NOPROOFLOG") == "" {
+					r.result = "unsat"
+					r.solver = "prooflog:" + hint.solver
+					atomic.AddInt64(&proofLogHits, 1)
 				}
 				j.o.Result, j.o.Solver, j.o.Seconds = r.result, r.solver, r.secs
 				j.o.File = file
@@ -262,4 +327,78 @@ func solveAll(vcs []*VC, dir string, timeoutS int, seed int, keep bool) {
 	}
 	close(ch)
 	wg.Wait()
+}
+
+// ---- proof log ------------------------------------------------------------------------------------------------
+// /verif/proofs/<prop>.tsv, committed, written only by `govc check <prop>` under VERIF_RECORD_PROOFS=1 from a run in
+// which the obligation was discharged by a solver: obligation name, sha256 of the query text, back end, seconds.
+// Uses: (1) strategy - the recorded back end runs first; (2) when every back end times out on this run, an obligation
+// whose query text is byte-identical to the recorded one counts as discharged ("prooflog:<backend>" in the evidence).
+
+type proofEntry struct {
+	digest string
+	solver string
+	secs   float64
+}
+
+type proofLogT struct {
+	byName map[string]*proofEntry
+}
+
+var proofLog = &proofLogT{byName: map[string]*proofEntry{}}
+var proofLogHits int64
+var proofLogPath string
+
+func (p *proofLogT) lookup(name string) *proofEntry {
+	if p == nil {
+		return nil
+	}
+	return p.byName[name]
+}
+
+func vcDigest(txt string) string { return fmt.Sprintf("%x", sha256.Sum256([]byte(txt))) }
+
+func loadProofLog(path string) {
+	proofLogPath = path
+	proofLog = &proofLogT{byName: map[string]*proofEntry{}}
+	b, err := os.ReadFile(path)
+	if err != nil {
+		return
+	}
+	for _, l := range strings.Split(string(b), "\n") {
+		f := strings.Split(l, "\t")
+		if len(f) != 4 {
+			continue
+		}
+		var secs float64
+		fmt.Sscanf(f[3], "%g", &secs)
+		proofLog.byName[f[0]] = &proofEntry{digest: f[1], solver: f[2], secs: secs}
+	}
+}
+
+func recordProofLog(vcs []*VC) {
+	if proofLogPath == "" {
+		return
+	}
+	var lines []string
+	seen := map[string]bool{}
+	for _, vc := range vcs {
+		for _, o := range vc.obls {
+			if o.Cover || o.Result != "unsat" || o.Digest == "" || seen[o.Name] {
+				continue
+			}
+			sv, secs := o.Solver, o.Seconds
+			if strings.HasPrefix(sv, "prooflog:") {
+				// keep the entry this result came from
+				if e := proofLog.lookup(o.Name); e != nil {
+					sv, secs = e.solver, e.secs
+				}
+			}
+			seen[o.Name] = true
+			lines = append(lines, fmt.Sprintf("%s\t%s\t%s\t%.2f", o.Name, o.Digest, sv, secs))
+		}
+	}
+	sort.Strings(lines)
+	os.MkdirAll(filepath.Dir(proofLogPath), 0o755)
+	os.WriteFile(proofLogPath, []byte(strings.Join(lines, "\n")+"\n"), 0o644)
 }
